@@ -208,6 +208,60 @@ pub fn run(ctx: &Ctx, st: &mut Stats) {
     if lstride == 1 {
         st.mark_exhaustive("last_day_of_month: dates x critical-times", "all dates x all critical times (Timestamp; OracleDate at whole seconds)");
     }
+    // ---- history monitors
+    // one offset across many different days back to back (offset loop outermost), ascending and descending
+    let hoffs: Vec<i64> = vec![-1, 1, -12, 12, -13, 11, -25, 48, -48, 1200, -1200, 6, -6];
+    let hdates: Vec<i64> = date_pool().into_iter().map(|x| x as i64).collect();
+    let (hoffs_ref, hdates_ref) = (&hoffs, &hdates);
+    ctx.par(st, "history: same offset on consecutive different days (offset outermost)", true, 0, hoffs.len() as i64 * 2, |st, i, _| {
+        let k = hoffs_ref[(i / 2) as usize];
+        let desc = i % 2 == 1;
+        let n = hdates_ref.len();
+        for j in 0..n {
+            let d = hdates_ref[if desc { n - 1 - j } else { j }];
+            st.eval(&C::ab(K::DateYm, d, k), check);
+            st.eval(&C::ab(K::TsYm, d * DAY_US + 45_296_000_000, k), check);
+            st.eval(&C::ab(K::OraYm, d * DAY_US + 45_296_000_000, k), check);
+            st.eval(&C::ab(K::DateLdom, d, 0), check);
+        }
+        // a dense run of consecutive days as well
+        for d in 0..800i64 {
+            let day = if desc { 400 - d } else { d - 400 };
+            st.eval(&C::ab(K::TsYm, day * DAY_US + 1, k), check);
+            st.eval(&C::ab(K::DateYm, day, k), check);
+        }
+    });
+    let na = ctx.tier.pick(200, 200_000, 2_000_000);
+    ctx.par(st, "history: A,B,A", false, 0, na, |st, i, rng| {
+        let mk = |rng: &mut Rng| {
+            let base = rng.range_i64(TS_MIN, TS_MAX);
+            let k = rng.range_i64(-40, 40);
+            match rng.below(4) {
+                0 => C::ab(K::DateYm, base.div_euclid(DAY_US), k),
+                1 => C::ab(K::TsYm, base, k),
+                2 => C::ab(K::DateLdom, base.div_euclid(DAY_US), 0),
+                _ => C::ab(K::TsLdom, base, 0),
+            }
+        };
+        let (a, b) = (mk(rng), mk(rng));
+        for c in [a, b, a] {
+            st.eval_h(mix(c.hash(c.k as u64 + 9), i as u64), &c, check);
+        }
+    });
+    cold_threads(st, "history: first call on a fresh thread", {
+        let mut v = vec![];
+        for d in [0i64, 1, -1, 30, 31, -31, MIN_DAY as i64, MAX_DAY as i64, 11_016, -17, 14] {
+            v.push(C::ab(K::DateLdom, d, 0));
+            v.push(C::ab(K::TsLdom, d * DAY_US + 1, 0));
+            v.push(C::ab(K::OraLdom, d * DAY_US, 0));
+            for k in [1i64, -1, 12, -12, 2, -2] {
+                v.push(C::ab(K::DateYm, d, k));
+                v.push(C::ab(K::TsYm, d * DAY_US + 43_200_000_000, k));
+                v.push(C::ab(K::OraYm, d * DAY_US, k));
+            }
+        }
+        v
+    }, check);
     // seeded random (timestamp, offset)
     let n = ctx.tier.pick(1_000, 1_000_000, ctx.big(20_000_000, 200_000_000));
     ctx.par(st, "random/timestamp x offset", false, 0, n, |st, _, rng| {
